@@ -385,7 +385,7 @@ def kill_case(broker: str):
                                   "frac": st.floats(0.0, 1.0, allow_nan=False),
                                   "early_frac": st.floats(0.05, 0.95), "late_extra": st.sampled_from([0.002, 0.1, 0.9, 3.0]),
                                   "timeout": st.sampled_from([2, 3]), "mixed": st.booleans(),
-                                  "long_timeout": st.sampled_from([30, 600, 3600])})
+                                  "long_timeout": st.sampled_from([30, 600, 3600, 86400, 2 * 86400 + 2])})
 
 
 def enumerate_kill(broker: str):
